@@ -22,7 +22,18 @@ RULE = ('rule-level: every exported rule whose tree is an integer binary operato
         'end-to-end: seeded generated IR functions (1-4 integer parameters, arithmetic, casts, constants, diamonds, loops, stack '
         'memory; no calls) x 6 boundary-biased argument vectors, final linked bytes executed by the Python RV32 twin, result in '
         'x10 compared with tools/irsem_py (UB cases skipped)')
-EXPLANATION = ('PARTIAL, RISC-V RV32IM only, no RVC, no other target. Proved (unbounded): add/sub/mul/and/or/xor/sll at 8/16/32 bits, '
+EXPLANATION = ('UPDATE (deepening round): now ALSO proved - loads LDR{I,U}{8,16,32} and stores STR{I,U}{8,16,32} with reg, reg+const '
+               'and (base, offset) mem addresses against IRSem.read_bytes/write_bytes/le_decode/le_encode through the relation mem_rel '
+               '(c05_rv_load_rule_sound, c05_rv_store_rule_sound); MOVx (c05_rv_mov_rule_sound); CJMP{I,U}32 for all six relations: '
+               'branch taken iff IRSem.eval_cond (c05_rv_cjmp_rule_sound), the 24 sub-word CJMP rows are refuted with Coq-verified '
+               'witnesses (c05_rv_cjmp_refuted); JMP; and c05_rv_callconv: prologue/epilogue balanced on an abstract frame machine '
+               '(word slots; the printed instruction lists are shown to be these operations; NOT tied to the byte memory of RV32Exec), '
+               'argument locations x12..x17 then packed stack slots (distinct registers, non-overlapping slots), callee reads a stack '
+               'argument at the address the caller stored it. Still NOT proved: LABEL/address constants (hi/lo relocation pairs), '
+               'FPREL address rule and the peephole fprel adjustment, MOVB memcpy, float rules, gen_call argument set-up, selection, '
+               'register allocation. Frames above ~2 KiB do not compile (no rule for FPREL offsets outside 12 bits) - recorded. '
+               'ORIGINAL TEXT: '
+               'PARTIAL, RISC-V RV32IM only, no RVC, no other target. Proved (unbounded): add/sub/mul/and/or/xor/sll at 8/16/32 bits, '
                'srl/sra/div/divu/rem/remu at 32 bits and the immediate forms addi/andi/ori/xori/slli/srli/srai implement the IR '
                'operator on represented values; every exported rule that passes check_rule (binary operator over reg/reg, '
                'reg/const, const/reg; constants through Li) is sound for all states, operand registers and admissible constants; '
@@ -475,7 +486,12 @@ def search(ctx):
 
 
 MANIFEST = {
-    'text': 'PARTIAL (other): RISC-V RV32IM only (no RVC, no other target, no emulator). Every @isa.pattern function of the riscv '
+    'text': 'UPDATE: 111 of 232 exported rule rows are now proved sound (68 ALU/constant rows + 43 load/store/move/32-bit '
+            'conditional-jump/jump rows), 24 sub-word conditional-jump rows are refuted with verified witnesses, and the frame code '
+            '(prologue/epilogue balanced, argument locations, caller/callee stack-slot agreement) is proved on an abstract frame machine '
+            'whose model is compared with the real RiscvArch methods on generated signatures and frames (c05_rv_callconv; abstract: word '
+            'slots, not the byte memory). New defect: LDRI32(ADDI32(reg, CONSTI32)) has no offset condition (compile crash; fix C05-5). '
+            'DETAIL: PARTIAL (other): RISC-V RV32IM only (no RVC, no other target, no emulator). Every @isa.pattern function of the riscv '
             'back-end is executed symbolically and exported (192 registrations, 180 executable). Coq proves, against an independent '
             'RV32I/M semantics and the IR reference semantics, per-opcode lemmas for add/sub/mul/and/or/xor/sll (8/16/32-bit values '
             'represented modulo 2^bits), srl/sra/div/divu/rem/remu (32-bit) and the immediate forms, and that every exported rule '
